@@ -4,6 +4,11 @@ import json, subprocess
 
 # id: (level, engine, technique, level text, level note, design ref)
 CHECKS = {
+ "C11": ("model_checking", "space",
+         "complete enumeration of the finite parameter spaces named in the property, real operators vs. table-driven reference",
+         "All 1920x1920 adapt from/to pairs (forward vs. reference mapping, inverse vs. exact reverse), all 4096 four-letter words x 12 suffixes for acceptance/rejection, all 1920 'to=X' vs 'inv from=X' equivalences, the 8 built-in adaptor macros; every index list of length <= 5 over -5..5 for axisswap (442 valid ones compared with the documented signed permutation, all others must be rejected); every ordered pair of the 24 xy and 21 z units for unitconvert against PROJ's published factors; unit table hygiene via hook H3. Both tiers run the complete space.",
+         "Trusts the harness's reference tables (descriptor semantics from the adapt documentation, unit factors from PROJ units.c). One generic probe tuple per instance (the mappings are linear, so one generic tuple determines them). The angular suffix is accepted under either of two readings (horizontal elements / first two positions).",
+         "DESIGN.md §3 C11"),
  "C04": ("model_checking", "explore",
          "exhaustive enumeration of macro binding/nesting/resource-graph spaces against a reference expander; graphs and depth sweeps in watchdog-supervised worker processes",
          "Complete products of (body shape x binding form x parameter name x caller-argument subset x inv placement x stand-alone/step), of nesting chains of depth 1..4 (per-level name and forwarding form, pipelines, inverted levels), all 8000 assignments of bodies to three mutually referring macros x 3 entry points, rings of length 1..50 and legitimate chains of depth 0..50: each invocation must be accepted exactly when its reference expansion is valid and then behave bit-identically to the composition of the expansion's stand-alone elementary steps; every instantiation must return within the watchdog limit on a 2 MiB stack.",
@@ -57,7 +62,7 @@ def main():
             "add_only": True,
         },
         "engines": [
-            {"name": "space", "path": "/verif/mc/src/engine.rs", "kind_free_text": "exhaustive mixed-radix product enumeration on 16 threads (par_range/decode)", "serves_properties": []},
+            {"name": "space", "path": "/verif/mc/src/engine.rs", "kind_free_text": "exhaustive mixed-radix product enumeration on 16 threads (par_range/decode)", "serves_properties": ["C11"]},
             {"name": "explore", "path": "/verif/mc/src/props", "kind_free_text": "explicit-state / program-tree exploration of the real API against reference models written in Rust", "serves_properties": ["C03", "C04", "C12"]},
             {"name": "workers", "path": "/verif/mc/src/engine.rs", "kind_free_text": "worker subprocesses (2 MiB stack, 4 GiB address space, watchdog) for hang / overflow / abort detection", "serves_properties": ["C04"]},
         ],
